@@ -401,6 +401,87 @@ def _literal_shape_oracle(rng, n):
     return dict(hist), failures
 
 
+RETURN_CLASSES = ("return-default-requoted",)
+
+
+def _return_entry_described(ir, out):
+    """what the recorded class return-default-requoted describes: a return entry WITH a default comes back - present - with
+    its default re-quoted, one WITHOUT a default is dropped.  A return entry that carries a default and is MISSING after the
+    round trip is not that difference"""
+    r = ((ir.get("returns") or {}).get("return_type")) if isinstance(ir.get("returns"), dict) else None
+    if not r or r.get("default") is None:
+        return True
+    got = ((out.get("returns") or {}).get("return_type")) if isinstance(out, dict) else None
+    return got is not None
+
+
+def _tighten_return(failures):
+    """return-default-requoted stands only for the difference it describes (seeded change C04-5 drops the whole entry
+    for a default spelled None; the class used to absorb that)"""
+    n = 0
+    for f in failures:
+        c = f.get("case")
+        if f.get("class") in RETURN_CLASSES and isinstance(c, dict) and "ir" in c and "opts" in c and "ir_long" not in c:
+            _, _, out = fam_parseast.round_trip("argparse", c["ir"], c["opts"])
+            if out is not None and not _return_entry_described(c["ir"], out):
+                f["class"] = None
+                f["what"] += " [not what the recorded class return-default-requoted describes: the entry carries a default and is missing afterwards]"
+                n += 1
+    return {"return-class:not-described": n} if n else {}
+
+
+def _return_default_oracle(rng, n):
+    """stratum: a return entry that carries a default written as source text (None, a number, a bool, a quoted string, a
+    member of its Literal), under Optional / scalar / Literal types, next to 0..2 options of the proved shape"""
+    import collections
+    from collections import OrderedDict
+    import gen_text as G
+    F = fam_parseast
+    table = [("Optional[int]", ["None", "0", "5", "-5"]), ("Optional[str]", ["None", "''", "'adam'"]),
+             ("Optional[List[str]]", ["None"]), ("int", ["0", "-5", "100"]), ("bool", ["False", "True"]),
+             ("str", ["''", "'mnist'"]), ("float", ["0.5", "-1.25"]), ("Literal['a', 'b']", ["'a'", "'b'"])]
+    pts = []
+    for _ in range(n):
+        items, used = [], set()
+        for _k in range(rng.choice([0, 1, 1, 2])):
+            nm = G.ident(rng)
+            while nm in used:
+                nm = G.ident(rng)
+            used.add(nm)
+            typ = rng.choice(["int", "str", "float", "Optional[int]", "Optional[str]", "bool"])
+            v = {"int": rng.choice([5, 1, -3]), "float": rng.choice([0.5, 2.5]), "str": rng.choice(["mnist", "adam"]),
+                 "bool": rng.choice([True, False])}[typ.replace("Optional[", "").rstrip("]")]
+            items.append((nm, {"doc": G.clean_prose(rng), "typ": typ, "default": v}))
+        typ, ds = rng.choice(table)
+        ret = {"typ": typ, "doc": G.clean_prose(rng, max_words=5), "default": rng.choice(ds)}
+        ir = {"name": None, "type": "static", "doc": G.clean_prose(rng, max_words=6), "params": OrderedDict(items),
+              "returns": OrderedDict([("return_type", ret)])}
+        opts = {"emit_default_doc": rng.random() < 0.4, "word_wrap": rng.random() < 0.5, "wrap_description": False}
+        pts.append((ir, opts, ["return-default:" + ("none" if ret["default"] == "None" else "value"), "rtype:" + typ.split("[")[0]]))
+    infos = _refined([(ir, o) for ir, o, _ in pts])
+    hist, failures, n_eval = collections.Counter(), [], 0
+    for (ir, o, tags), info in zip(pts, infos):
+        cls = info[0]
+        if cls == "out-of-domain":
+            hist["return-default:out-of-domain"] += 1
+            continue
+        case = {"kind": "argparse", "ir": ir, "opts": o}
+        ok, what, out = F.round_trip("argparse", ir, o)
+        n_eval += 1
+        if cls == "unmodelled":
+            continue
+        if ok and out is not None and not _return_entry_described(ir, out):
+            ok, what = False, "the return entry carries a default and is missing after the round trip"
+        if not ok:
+            cls, note = _classify_failure(case, out, info)
+            if cls in RETURN_CLASSES and out is not None and not _return_entry_described(ir, out):
+                cls, note = None, " [not what the recorded class return-default-requoted describes]"
+            failures.append({"case": case, "what": what + note, "class": cls})
+        hist["return-default:%s:%s:%s" % (tags[0], "holds" if ok else "fails", cls or "in-guard")] += 1
+    hist["return-default:points"] = n_eval
+    return dict(hist), failures
+
+
 def _reclassify(failures):
     """failures of the other streams that finding_class_C04 does not name: ask the refined classifier"""
     idx = [k for k, f in enumerate(failures) if f.get("class") is None and isinstance(f.get("case"), dict)
@@ -448,6 +529,13 @@ def oracle(rng, tier):
     res["histogram"].update(hist)
     res["failures"] += failures
     res["evaluations"] += hist.get("literal-shapes:points", 0)
+    hist, failures = _return_default_oracle(rng, 250 if tier == "quick" else 3000)
+    res["histogram"].update(hist)
+    res["failures"] += failures
+    res["evaluations"] += hist.get("return-default:points", 0)
+    res["histogram"].update(_tighten_return(res["failures"]))
+    res["rule"] += (" | stratum: a return entry that carries a default written as source text (None, numbers, quoted strings); the class "
+                    "return-default-requoted stands only for a re-quoted default of an entry that is still there")
     res["rule"] += (" | stratum of Literal options with a degenerate member (empty / blank string, repeated member, single member, "
                     "double quote marks, number- or keyword-like text, inner blanks or commas), default a member or absent; the "
                     "classes literal-without-default / literal-single-choice stand only for the difference they describe")
